@@ -69,6 +69,8 @@ func checkC07(c c07Case, o *Obs) error {
 		return err
 	}
 	o.Label("measure:" + c.Measure)
+	o.LabelIf(len(c.Targets[0].Seq) >= 64, "width>=64")
+	o.LabelIf(len(c.Targets[0].Seq)%64 == 0, "width-multiple-of-64")
 	nt := false
 	for _, q := range c.Queries {
 		for _, t := range c.Targets {
@@ -272,6 +274,10 @@ func genC07(t *rapid.T) c07Case {
 	c := c07Case{Measure: rapid.SampledFrom([]string{"raw", "snp", "tn93", "tn93"}).Draw(t, "measure")}
 	c.Threads = rapid.SampledFrom([]int{0, 1, 2}).Draw(t, "threads")
 	w := rapid.IntRange(4, maxW).Draw(t, "width")
+	wide := rapid.IntRange(0, 7).Draw(t, "wide") == 0
+	if wide {
+		w = rapid.SampledFrom([]int{64, 65, 127, 128, 129, 192, 193, 256, 320, 200, 4096, 4097}).Draw(t, "wideWidth")
+	}
 	nq := rapid.IntRange(1, 2).Draw(t, "nq")
 	nt := rapid.IntRange(1, 4).Draw(t, "nt")
 	kind := rapid.IntRange(0, 3).Draw(t, "kind")
@@ -309,6 +315,23 @@ func genC07(t *rapid.T) c07Case {
 		}
 		c.Queries = append(c.Queries, FaRec{ID: fmt.Sprintf("q%d", i), Seq: string(qs)})
 	}
+	if wide {
+		// long masked stretches in the query (>= 64 masked columns in total is common in real data)
+		for i := range c.Queries {
+			if rapid.Bool().Draw(t, "qMasked") {
+				q := []byte(c.Queries[i].Seq)
+				for k := rapid.IntRange(1, 3).Draw(t, "nMaskRuns"); k > 0; k-- {
+					p := rapid.IntRange(0, w-1).Draw(t, "maskPos")
+					n := rapid.IntRange(20, 90).Draw(t, "maskLen")
+					sym := rapid.SampledFrom([]byte{'N', '-', '?'}).Draw(t, "maskSym")
+					for j := p; j < p+n && j < w; j++ {
+						q[j] = sym
+					}
+				}
+				c.Queries[i].Seq = string(q)
+			}
+		}
+	}
 	for i := range c.Queries {
 		c.Queries[i].Seq = randomCase(t, c.Queries[i].Seq, "qcase")
 	}
@@ -317,6 +340,9 @@ func genC07(t *rapid.T) c07Case {
 	}
 	c.QLay = genLayout(t, w)
 	c.TLay = genLayout(t, w)
+	if wide {
+		c.TLay.Width = rapid.SampledFrom([]int{0, 60, 64, 70, 80, 64}).Draw(t, "wideWrap")
+	}
 	return c
 }
 
